@@ -28,6 +28,7 @@ fn main() {
         "C01" => drive(&props::c01::C01, tier, seed, replay),
         "C02" => drive(&props::c02::C02, tier, seed, replay),
         "C03" => drive(&props::c03::C03, tier, seed, replay),
+        "C05" => drive(&props::c05::C05, tier, seed, replay),
         "C13" => drive(&props::c13::C13, tier, seed, replay),
         other => harness_error(&format!("unknown property {other}")),
     };
